@@ -56,7 +56,9 @@ func propC03(w *World, r *Report) {
 	for _, a := range boundsAssumptions {
 		r.Assumes(a)
 	}
-	RunLosslessFor(w, r, "C03", newBoundsRun(w))
+	br03 := newBoundsRun(w)
+	RunLosslessFor(w, r, "C03", br03)
+	runNarrowBoundIn(w, r, br03, "/header")
 	RunSearchFields(w, r, map[string]bool{"header.Write": true})
 	{
 		var hw []*ssa.Function
